@@ -16,6 +16,19 @@ _HIST_ASSUME = [
 ]
 
 PROPS = {
+    "C13": {
+        "level": "exploration",
+        "jobs": [
+            {"run": "^TestC13Interleavings", "rapid": False, "checks": {"quick": 0, "thorough": 0}, "shards": {"quick": 1, "thorough": 1}},
+            {"run": "^TestC13Workloads", "race": True, "checks": {"quick": 25, "thorough": 300}, "shards": {"quick": 2, "thorough": 14}, "shrink_s": 30},
+            {"run": "^TestC13Interleavings", "race": True, "rapid": False, "checks": {"quick": 0, "thorough": 0}, "shards": {"quick": 0, "thorough": 1}},
+        ],
+        "assumptions": [
+            "interleavings are explored at the verif yield points placed between critical sections; finer interleavings inside a critical section are left to the race detector on the randomised workloads",
+            "the serial reference runs use byte-identical copies of the same data directory; impact rates (random in the test build) and signatures over them are excluded from the comparison",
+            "workload outcomes are order-independent by construction, so scheduling cannot raise an alarm",
+        ],
+    },
     "C12": {
         "level": "exploration",
         "jobs": [
@@ -199,6 +212,11 @@ PROPS = {
 
 # Texts for MANIFEST.json.
 META = {
+    "C13": {
+        "technique": "schedule-owning interleaving injection at critical-section boundaries with a metamorphic serial-order oracle (complete point x interferer matrix), plus randomised order-independent workloads under the Go race detector against the reference model",
+        "text": "For every yield point between critical sections and every interfering operation of the menu, the interferer is executed from inside the outer operation and the final state is compared with both serial orders run on identical copies of the data directory; panics, held mutexes and CheckInvariants are checked in every cell. Many-goroutine workloads with order-independent outcome run under -race with the background jobs free-running and are compared with the reference model. Exploration: absence of races or deadlocks on unexplored schedules is not claimed.",
+        "note": "'Every control-flow path of every function that locks' is attacked dynamically (this check, plus the TryLock probes after every input in C12 and C11); paths not driven are not judged.",
+    },
     "C12": {
         "technique": "property-based fuzzing of all three network surfaces with structured generators (datagram, TCP, HTTP method x route x query x body), fault injection for peers and connections, liveness probes after every input",
         "text": "Generated datagrams, sync requests and HTTP requests (incl. validly signed payloads at extreme field values) arrive at generated clock values from before the window to beyond two windows, with rotation steps in between, with authorized peers that are down; reports are also injected during the start-up catch-up loop through a verif point; shutdown is exercised with idle and half-sent connections and a stalled peer. No goroutine or handler may panic, every request must be answered, a probe must succeed and both mutexes must be free after every input, and Close() must return within the bound. Exploration only.",
